@@ -10,10 +10,12 @@ class Splitter(Device):
         self.out2: Optional[Device] = None
 
     def put(self, packet: Packet):
+        # copy first: the first output may change the original inside put()
+        duplicate = copy(packet) if self.out2 else None
         if self.out1:
             self.out1.put(packet)
         if self.out2:
-            self.out2.put(copy(packet))
+            self.out2.put(duplicate)
 
     def run(self, env):
         raise RuntimeError("splitter should not execute run()")
@@ -29,11 +31,13 @@ class NSplitter(Device):
             raise TypeError("N should be an interger larger than 1")
 
     def put(self, packet: Packet):
+        # copy first: the first output may change the original inside put()
+        duplicates = [copy(packet) if out else None for out in self.outs[1:]]
         if self.outs[0]:
             self.outs[0].put(packet)
-        for out in self.outs[1:]:
+        for out, duplicate in zip(self.outs[1:], duplicates):
             if out:
-                out.put(copy(packet))
+                out.put(duplicate)
 
     def run(self, env):
         raise RuntimeError("splitter should not execute run()")
